@@ -71,6 +71,12 @@ MUTANTS = {
     'M48-missing-fallback-variable-raises-wider-exception': ('mesonbuild/interpreter/interpreterobjects.py',
                                                             "                ustr += f' Did you mean \"{close_matches[0]}\"?'\n            raise InvalidArguments(ustr)",
                                                             "                ustr += f' Did you mean \"{close_matches[0]}\"?'\n            raise InterpreterException(ustr)"),
+    'M49-declare_dependency-default-version-from-top-project': ('mesonbuild/interpreter/interpreter.py',
+                                                               "        if version is None:\n            version = self.project_version\n",
+                                                               "        if version is None:\n            version = self.build.project_version\n"),
+    'M50-subproject-wraps-loaded-from-main-subproject_dir-name': ('mesonbuild/interpreter/interpreter.py',
+                                                                 "        subprojects_dir = os.path.join(self.subdir, spdirname)\n",
+                                                                 "        subprojects_dir = os.path.join(self.subdir, self.subproject_dir)\n"),
 }
 
 
